@@ -237,6 +237,12 @@ func C14(c *fw.Ctx) {
 				tag = 0
 				run("object-literal", model.Obj([]string{"b", "a", "c"}, []*model.N{P(a.Mk()), P(b.Mk()), P(d.Mk())}))
 				tag = 0
+				run("object-literal-with-constant-arithmetic", model.Obj([]string{"z", "a", "m"}, []*model.N{P(a.Mk()), P(b.Mk()), P(model.Bin("*", model.Num(60), model.Num(60)))}))
+				tag = 0
+				run("object-literal-with-constant-arithmetic-nested", model.Obj([]string{"z", "a", "m"}, []*model.N{P(a.Mk()), model.Arr(P(b.Mk()), model.Grp(model.Bin("+", model.Num(1), model.Num(1)))), P(d.Mk())}))
+				tag = 0
+				run("array-literal-with-constant-arithmetic", model.Arr(P(a.Mk()), model.Bin("-", model.Num(2), model.Num(1)), P(b.Mk()), model.Obj([]string{"y", "x"}, []*model.N{P(d.Mk()), P(model.Bin("+", model.Num(1), model.Num(2)))})))
+				tag = 0
 				run("index-store", model.IAsg(P(model.Id("arr")), P(a.Mk()), P(b.Mk())), model.Print(model.Id("arr")))
 			}
 			tag = 0
